@@ -1515,6 +1515,65 @@ func (g *gen) refBurst(limit int) {
 	}
 }
 
+// refLeaverRun: a connection holds a model to which one change event adds five uncached
+// references; they are loaded under its reference throttle. The connection closes while some of
+// the get requests still wait for a slot. Whatever the gateway does with the waiting ones, the
+// shared cache entries must stay usable: another connection that subscribes to one of those
+// references afterwards is served, and at the end of the history everything is released (C11).
+func (g *gen) refLeaverRun(limit int) {
+	for len(g.liveClients()) < 2 {
+		g.connect()
+	}
+	cs := g.liveClients()
+	if len(cs) < 2 || g.w.stall != "" {
+		return
+	}
+	a, b := cs[0], cs[1]
+	g.kinds["ref-leaver-run"]++
+	g.w.request(a, "subscribe.m.self", "")
+	g.drain()
+	tr := g.w.truth.get("m.self", "")
+	if tr == nil || tr.deleted || g.w.stall != "" || a.closed {
+		return
+	}
+	leaves := []string{"m.l1", "m.l2", "m.l3", "m.l4", "m.l5"}
+	var parts []string
+	for i, l := range leaves {
+		k := fmt.Sprintf("b%d", i)
+		tr.model[k] = aval("r:" + l)
+		parts = append(parts, fmt.Sprintf("%q:{\"rid\":%q}", k, l))
+	}
+	g.w.publish("event.m.self.change", `{"values":{`+strings.Join(parts, ",")+`}}`)
+	// some of the gets are out, the others wait: the holder leaves
+	requested := map[string]bool{}
+	for _, rq := range g.w.mq.outstanding() {
+		if strings.HasPrefix(rq.subject, "get.m.l") {
+			requested[strings.TrimPrefix(rq.subject, "get.")] = true
+		}
+	}
+	g.w.disconnect(a)
+	g.drain()
+	// somebody else asks for a reference whose get was still waiting when the holder left
+	var target string
+	for _, l := range leaves {
+		if !requested[l] {
+			target = l
+			break
+		}
+	}
+	if target == "" || g.w.stall != "" || b.closed {
+		return
+	}
+	id := g.w.request(b, "subscribe."+target, "")
+	g.drain()
+	if g.w.stall != "" || b.closed {
+		return
+	}
+	if _, open := b.ref.pending[id]; open {
+		g.w.addViolation("C11", "starved-after-disconnect", fmt.Sprintf("subscribe.%s of another connection is never answered after the connection that had its get request waiting in a reference throttle (limit %d) was closed", target, limit))
+	}
+}
+
 // drain answers every outstanding request (grants, current state) until none is left.
 func (g *gen) drain() {
 	waited := 0
@@ -1607,6 +1666,9 @@ func runHistory(p profile, seed uint64, index int, keepSteps bool, wantSnap bool
 	}
 	if p.name == "throttle" && cfg.referenceThrottle > 0 && r.chance(1, 4) {
 		g.refBurst(cfg.referenceThrottle)
+	} else if p.name == "throttle" && cfg.referenceThrottle > 0 && newRng(seed*613+uint64(index)*89+3).chance(1, 3) {
+		// (whether it runs is decided by a generator of its own)
+		g.refLeaverRun(cfg.referenceThrottle)
 	}
 	for i := 0; i < p.steps && w.stall == ""; i++ {
 		g.step()
